@@ -186,7 +186,8 @@ def main():
     for _ in range(1 if quick else 4):
         v5 = rng.random() < 0.5
         h = g.header5(rng) if v5 else g.header34(rng, 4)
-        body = g.rbytes(rng, rng.choice([4000] if quick else [4000, 65528, 65531]))
+        n = rng.choice([4000] if quick else [4000, 65528, 65531])
+        body = g.rbytes(rng, n) if n <= 4000 else [rng.randrange(256)] * n
         b = h + g.wire_field(rng.choice([g.T_UID, 0x2A, g.T_REFRESP]), body, v5)
         if v5:
             b += g.wire_field(g.T_DRAFT, g.DRAFT, True)
@@ -203,7 +204,7 @@ def main():
         if out and out[0] == "PANIC":
             o = "[3;0]"
         else:
-            o = "[" + ";".join(out) + "]"
+            o = g.coq_nums(out)
         return "((%d, %s) : Z * bytes)" % (case["cap"], g.coq_bytes(case["data"])), "(%s : list Z)" % o
 
     c.cov["rule"] = ("decode(NoCipher) -> encode -> decode -> encode on NTPv3/v4/v5 datagrams: every field kind x size class as "
@@ -212,7 +213,7 @@ def main():
                      "encoder buffer mostly roomy (7n+128), sometimes too small. non-trivial = the decoder accepted the datagram")
     vplib.correspondence(
         c, "ntp-proto", cases, line_of=lambda case: "%d %s" % (case["cap"], g.hexs(case["data"])), coq_case_of=coq_case,
-        preamble="From V Require Import Model.Packet.\nOpen Scope Z_scope.\n",
+        preamble="From V Require Import Model.Packet.\nOpen Scope Z_scope.\n" + g.REP_DEF,
         checker="mismatches list_eqb run_roundtrip", monitor=monitor, nontrivial=nontrivial,
         key_of=lambda case: (case["cap"], bytes(case["data"])), shard=50,
         sample_of=lambda case, out: {"kind": case["kind"], "buffer": case["cap"], "datagram_hex": g.hexs(case["data"])[:300],
